@@ -21,8 +21,13 @@ def run(R, ctx):
     rule = R.rule
     concsuite.run_conc(R, ctx, "hash-addrem", ['addrem', 'counters'], (2, 12), race=False)
     R.rule = rule + " Concurrent scenario(s) addrem, counters (numbers oscillating across a digit boundary under HINCRBY / INCR while other clients list them in bulk: every value read is one the counter held) of the conc engine (see C05): the family's containers under concurrent clients, verdict by invariants that need no history search."
+    families.alias_probe(R, ctx, "hash")
+    families.alias_aim(R, ctx, own="hash", counters=False)   # only when fact F7 is broken
+
 
 def replay(R, payload):
+    if payload.get("engine") == "alias":
+        return families.alias_replay(R, payload)
     if payload.get("engine") == "conc":
         return concsuite.replay_conc(R, payload)
     return core.generic_replay(R, payload)
